@@ -69,10 +69,11 @@ pub fn run_input(src: &str, rep: &mut Report) -> Option<(String, String)> {
         Err(StageError::Panic { stage, msg }) => return Some((stage.into(), msg)),
         Err(_) => return None,
     };
+    let main_params = linear.defs.first().map(|d| d.context.bindings.len()).unwrap_or(0);
     for arch in Arch::all() {
         match pipeline::codegen(linear.clone(), arch) {
             Ok(_) => {}
-            Err(StageError::Panic { msg, .. }) if super::codegen::is_capacity_panic(&msg) => rep.count("capacity_assertions", 1),
+            Err(StageError::Panic { msg, .. }) if super::codegen::is_capacity_panic_for(&msg, main_params, arch) => rep.count("capacity_assertions", 1),
             Err(StageError::Panic { stage, msg }) => return Some((stage.into(), msg)),
             Err(_) => {}
         }
